@@ -427,7 +427,8 @@ def check(run, replay=None):
                              [{"m": "GET", "path": ev["path"], "ct": "", "acc": "", "clen": 0, "clh": "", "conds": []}],
                              "routers": table.get("routers", []), "options": ev["e"] == "probe", "fixed": True,
                              "withFilter": table.get("withFilter", False), "flavour": table.get("flavour", 1),
-                             "switched": table.get("switched", False), "swap": table.get("swap", False)},
+                             "switched": table.get("switched", False), "swap": table.get("swap", False),
+                             "defRoot": table.get("defRoot", False)},
                    "plan": cfgp["plan"], "over": overs.get(table.get("_src"), {}), "observed": ev.get("outs", ev), "mismatch": mis}
         path = write_replay(run, clause, payload)
         if ev["e"] == "req":
